@@ -18,16 +18,18 @@ import (
 )
 
 type Ctx struct {
-	Seed   int64
-	N      int
-	Only   int
-	Tier   string
-	In     string
-	Arg    string
-	out    *bufio.Writer
-	Events int
-	Driver string
-	Stats  map[string]int
+	Seed     int64
+	N        int
+	Only     int
+	Tier     string
+	In       string
+	Arg      string
+	out      *bufio.Writer
+	Events   int
+	Driver   string
+	Stats    map[string]int
+	From     int
+	variants map[int]int
 }
 
 func (c *Ctx) want(i int) bool { return c.Only < 0 || c.Only == i }
@@ -35,6 +37,14 @@ func (c *Ctx) want(i int) bool { return c.Only < 0 || c.Only == i }
 func (c *Ctx) gen(i int) *Gen { return NewGen(c.Seed*1000003 + int64(i)*7919 + 17) }
 
 func (c *Ctx) emit(i int, ev J) {
+	if _, ok := ev["variant"]; !ok {
+		// several events of one case are told apart by their position within the case
+		if c.variants == nil {
+			c.variants = map[int]int{}
+		}
+		ev["variant"] = c.variants[i]
+		c.variants[i]++
+	}
 	ev["driver"] = c.Driver
 	ev["seed"] = c.Seed
 	ev["case"] = i
@@ -76,13 +86,19 @@ func main() {
 	fs.StringVar(&c.Tier, "tier", "quick", "tier")
 	fs.StringVar(&c.In, "in", "", "input file (replayers)")
 	fs.StringVar(&c.Arg, "arg", "", "driver-specific argument")
+	fs.IntVar(&c.From, "from", 0, "first case index (isolated-worker drivers)")
+	appendOut := fs.Bool("append", false, "append to the output file")
 	outPath := fs.String("out", "", "output NDJSON file")
 	statsPath := fs.String("stats", "", "write driver statistics (JSON) here")
 	fs.Parse(os.Args[2:])
 	var f *os.File = os.Stdout
 	if *outPath != "" {
 		var err error
-		f, err = os.Create(*outPath)
+		if *appendOut {
+			f, err = os.OpenFile(*outPath, os.O_APPEND|os.O_CREATE|os.O_WRONLY, 0o644)
+		} else {
+			f, err = os.Create(*outPath)
+		}
 		if err != nil {
 			fmt.Fprintln(os.Stderr, "harness:", err)
 			os.Exit(3)
